@@ -485,7 +485,7 @@ let run_case (toks : sx list) : string =
               (if ok then "" else "skip ") ^ head !w.M.r_stt ^ "|" ^ dump !w) ops in
       List.iter (fun i -> w := M.r_step !w (M.RDestroy (nat_of_int i))) [0; 1; 2];
       String.concat " " outs ^ " end=" ^ head !w.M.r_stt
-  | [A (("var" | "varm") as vkind); A ops] ->
+  | [A (("var" | "varm" | "varc") as vkind); A ops] ->
       let ops = String.split_on_char ',' ops in
       let arg s = List.map int_of_string (String.split_on_char ':' (String.sub s 1 (String.length s - 1))) in
       let parse s : M.vop option =
@@ -496,13 +496,20 @@ let run_case (toks : sx list) : string =
         | 'N' -> Some (M.VNew i) | 'V' -> Some (M.VVal (i, k (), x (), t ())) | 'C' -> Some (M.VCopy (i, j ()))
         | 'X' -> Some (M.VMove (i, j ())) | 'D' -> Some (M.VDestroy i) | 's' -> Some (M.VSet (i, k (), x (), t ()))
         | 'e' -> Some (M.VSetEmpty i) | 'a' -> Some (M.VAssign (i, j ())) | 'm' -> Some (M.VMoveAssign (i, j ()))
-        | 'B' -> Some (M.VBecome (i, k ())) | _ -> None in
+        | 'B' -> Some (M.VBecome (i, k ()))
+        (* converting operations (kind varc): translated by the model's own vc_to_vop with the harness's placement *)
+        | ('K' | 'k' | 'O' | 'P' | 'o' | 'q') when vkind = "varc" ->
+            let c = (match s.[0] with
+              | 'K' -> M.VCConvConstruct (i, k (), x ()) | 'k' -> M.VCConvAssign (i, k (), x ())
+              | 'O' | 'P' -> M.VCFromOther (i, k (), x ()) | _ -> M.VCAssignOther (i, k (), x ())) in
+            Some (M.vc_to_vop M.harness_ctor_target M.harness_assign_target c)
+        | _ -> None in
       let head (st : M.stats) = Printf.sprintf "%d:%d:%d" (int_of_nat st.M.ctor) (int_of_nat st.M.dtor) (int_of_nat st.M.bad) in
       let dump (w : M.vworld) = String.concat ";" (List.map (function
           | None -> "X"
           | Some v -> if v.M.v_index = z_of_int (-1) then "E"
                       else (match v.M.v_slot with M.Alive x -> "A" ^ string_of_z v.M.v_index ^ ":" ^ string_of_z x | M.Dead -> "DEAD")) w.M.v_objs) in
-      let w = ref (M.v_init (nat_of_int 3) (z_of_int (if vkind = "varm" then 4 else 3))) in
+      let w = ref (M.v_init (nat_of_int 3) (z_of_int (if vkind = "var" then 3 else 4))) in
       let outs = List.map (fun s ->
           match parse s with
           | None -> "skip " ^ head !w.M.v_stt ^ "|" ^ dump !w
